@@ -370,6 +370,18 @@ def run_c10(t):
         return True, {"skipped": "never trained"}
     twin = copy.deepcopy(mab)
     q_out = [mwh.apply_op(mab, o, label, inv, base) for o in t["queries"]]
+    # what a query RETURNS belongs to the caller: emptying the returned objects must not reach the bandit
+    for o in t["queries"]:
+        try:
+            cx = mwh.to_ctx(o[1]) if len(o) > 1 else None
+            raw = (mab.predict if o[0] == "pred" else mab.predict_expectations)(cx)
+            for obj in (raw if isinstance(raw, list) else [raw]):
+                if isinstance(obj, dict):
+                    obj.clear()
+            if isinstance(raw, (list, dict)):
+                raw.clear()
+        except Exception:
+            pass
     if not sync_rngs(mab, twin):
         return False, {"why": "number of generator objects changed during prediction"}
     for i, o in enumerate(t["continuation"]):
